@@ -15,11 +15,18 @@ func init() {
 		seed := fs.Int64("seed", 1, "seed")
 		n := fs.Int("n", 2, "concretisations")
 		out := fs.String("out", "-", "report")
+		seq := fs.String("seq", "", "TLC export of CeSeq.tla (optional)")
 		fs.Parse(args)
 		rep, err := cerep.Run(*vec, *seed, *n)
 		if err != nil {
 			fmt.Fprintln(os.Stderr, err)
 			return 2
+		}
+		if *seq != "" {
+			if err := cerep.RunSeq(*seq, rep); err != nil {
+				fmt.Fprintln(os.Stderr, err)
+				return 2
+			}
 		}
 		if err := writeJSON(*out, rep); err != nil {
 			return 2
